@@ -632,18 +632,19 @@ func (ce *callEngine) recoverOnCall(ctx context.Context, m *wasm.ModuleInstance,
 	frameCount := len(ce.frames)
 	functionListeners := make([]functionListenerInvocation, 0, 16)
 
-	if frameCount > wasmdebug.MaxFrames {
-		frameCount = wasmdebug.MaxFrames
-	}
+	// The stack trace is limited to wasmdebug.MaxFrames, but every frame being unwound is visited:
+	// a listener which saw Before must see Abort, however deep the call stack is.
 	for i := 0; i < frameCount; i++ {
 		frame := ce.popFrame()
 		f := frame.f
-		def := f.definition()
-		var sources []string
-		if parent := frame.f.parent; parent.body != nil && len(parent.offsetsInWasmBinary) > 0 {
-			sources = parent.source.DWARFLines.Line(parent.offsetsInWasmBinary[frame.pc])
+		if i < wasmdebug.MaxFrames {
+			def := f.definition()
+			var sources []string
+			if parent := frame.f.parent; parent.body != nil && len(parent.offsetsInWasmBinary) > 0 {
+				sources = parent.source.DWARFLines.Line(parent.offsetsInWasmBinary[frame.pc])
+			}
+			builder.AddFrame(def.DebugName(), def.ParamTypes(), def.ResultTypes(), sources)
 		}
-		builder.AddFrame(def.DebugName(), def.ParamTypes(), def.ResultTypes(), sources)
 		if f.parent.listener != nil {
 			functionListeners = append(functionListeners, functionListenerInvocation{
 				FunctionListener: f.parent.listener,
